@@ -427,7 +427,13 @@ def execute(node, case, rec, opts):
         for si, s in enumerate(snaps):
             if not s["alive"]:
                 continue
-            now = dump(node, s["h"])
+            try:
+                now = dump(node, s["h"])
+            except (NodeError, ValueError, UnicodeError, KeyError, IndexError) as x:
+                # it read fine when it was taken: whatever makes it unreadable now changed it
+                raise Violation("immutability", "snapshot_changed",
+                                {"snapshot": si, "after_event": t, "why": why, "was": vm.to_jsonable(s["value"]),
+                                 "now": "unreadable: %s: %s" % (type(x).__name__, str(x)[:200])}, at=t)
             if not vm.same(now, s["value"]):
                 raise Violation("immutability", "snapshot_changed",
                                 {"snapshot": si, "after_event": t, "why": why, "was": vm.to_jsonable(s["value"]),
